@@ -14,6 +14,7 @@ RULE = ("every text of the C03 corpus (short texts over representative line shap
 HARD = [["k $$v"], ["k $$"], ["k a$$b$$"], ["%import a$$b"], ["k <v>"], ["k %v"], ["k #v"], ["k (v)"], ["k"], ["k", "k", "k x"],
         ["K v", "k w"], ["<A B>", "</a>"], ["<a/ >"], ["<a b/ >"], ["<a/ b>", "</a/>"], ["<a/ >", "</a/>"], ["<a b/ >", "</a>"], ["<x>", "<a/ >", "k v", "</a/>", "</x>"], ["<a>", "<b>", "<c>", "<d/>", "</c>", "</b>", "</a>"],
         ["<a>", "%import x.y", "</a>", "%import z"], ["<a>", "k v", "<b/>", "j w", "</a>"], ["é ü", "<é ü>", "</é>"],
+        ["<a $$b>", "</a>"], ["<a b$$c/>"], ["<a $$$$x>", "k v", "</a>"], ["<x>", "<a $$>", "</a>", "</x>"], ["<a ${b}>".replace("$", "$$"), "</a>"],
         ["k v\x0cw"], ["k  v   w"], ["<a n>", "</a>", "<a n>", "</a>"], ["k </a>"], ["k $$(x)"], ["k ${a}".replace("$", "$$")]]
 
 
@@ -134,11 +135,6 @@ def run(ctx):
         if again != first:
             ctx.violate("after schema-less loads refused %%define/%%include the schema-based loader gives %r (before: %r)" % (again, first),
                         {"before": first, "after": again}, signature="C17:schema-loader-directives")
-    for t in ():
-        r = real_load("".join(l + "\n" for l in t))
-        ctx.evaluations += 1
-        if r[0] == "ok":
-            ctx.violate("schema-less loader silently accepted %r" % t, {"lines": t}, signature="C17:directive-dropped")
     ctx.sample({"text": HARD[5], "str": str(real_load("".join(l + "\n" for l in HARD[5]))[1])})
     return core.finish(ctx, obligations, discharged, names, RULE,
                        "lake build ZCV.Props.C17 && lake env lean ZCV/Audit/C17.lean",
